@@ -14,7 +14,7 @@ from detsim import corrupt, gen, rng
 
 PROP = "C18"
 LEVEL = "exploration"
-RUNS = {"quick": 2400, "thorough": 30000}
+RUNS = {"quick": 1600, "thorough": 30000}
 BUDGET_S = {"quick": 90, "thorough": 1500}
 CASES_PER_RUN = 120
 RULE = ("each evaluation is one text: a generated well-formed chart damaged by a seeded sequence "
@@ -58,8 +58,25 @@ def make_plan(seed: int, tier: str, index: int) -> dict[str, Any]:
         base = gen.render(base_doc, newline="\n").split("\n")
         lines = list(base)
         ops = []
+        keep_structure = f.random() < 0.5
         for _ in range(f.randint(1, 8)):
             op = corrupt.gen_op(f, lines)
+            if keep_structure:
+                # aim the fault at body lines only, so that framing survives and the damage
+                # reaches the section parsers and the renderers
+                body = [i for i, ln in enumerate(lines) if ln.startswith("  ")]
+                if not body:
+                    continue
+                for key in ("i", "j"):
+                    if key in op:
+                        op[key] = body[op[key] % len(body)]
+                if op["kind"] == "truncate":
+                    op["kind"] = "char_delete"
+                    op["ch"] = ""
+                if op["kind"] == "line_insert":
+                    op["line"] = "  " + op["line"].strip() if op["line"].strip() not in (
+                        "{", "}") and not op["line"].strip().startswith("[") else "  0 = N 4 0"
+                    op["i"] = body[op["i"] % len(body)]
             new = corrupt.apply_op(lines, op)
             if not corrupt.within_bounds(new):
                 discarded += 1
